@@ -79,7 +79,7 @@ var specs = map[string]spec{
 			{name: "rat", test: "TestC15RAT", rapid: true, checks: [2]int{15000, 200000}, shards: [2]int{4, 8}, secs: [2]int{600, 7200}},
 			{name: "exhaustive", test: "TestC15Exhaustive", shards: [2]int{4, 15}, count: [2]int{5, 6}, secs: [2]int{600, 7200}},
 		},
-		rule:        "context = histories of write(reg, value, tag) / read(reg, tag) / commit / rollback(tag) over three registers on risc.Context, transaction map or rename table, reads made through a parsed 'mv t6, reg' instruction so that registerRead is the path exercised, tags drawn in increasing order (75%) or arbitrarily; model = architectural value plus the uncommitted writes per register; after commit/rollback every register is compared with 'youngest write (older than the tag)', a tagged read must never return a value written by a younger tag, and within the sub-domain 'tags in order and writes within the slots' reads are compared exactly. rat = Write/Read/Find/Values/FindValues histories on comp.RAT (ring 2..10, 3 keys) against a ring model; exhaustive = all histories of length <= k (5 quick, 6 thorough) of 15 actions over 2 keys, 3 values and rings 2 and 3. Non-trivial = (context) a rollback that keeps some writes of a register and discards others, (rat) a Find that has to skip the newest slot; distinct by history.",
+		rule:        "context = histories of write(reg, value, tag) / read(reg, tag) / commit / rollback(tag) (the tag of a write itself included: that write is not older than the tag) over three registers on risc.Context, transaction map or rename table, reads made through a parsed 'mv t6, reg' instruction so that registerRead is the path exercised, tags drawn in increasing order (75%) or arbitrarily; model = architectural value plus the uncommitted writes per register; after commit/rollback every register is compared with 'youngest write (older than the tag)', a tagged read must never return a value written by a younger tag, and within the sub-domain 'tags in order and writes within the slots' reads are compared exactly. rat = Write/Read/Find/Values/FindValues histories on comp.RAT (ring 2..10, 3 keys) against a ring model; exhaustive = all histories of length <= k (5 quick, 6 thorough) of 15 actions over 2 keys, 3 values and rings 2 and 3. Non-trivial = (context) a rollback that keeps some writes of a register and discards others, (rat) a Find that has to skip the newest slot; distinct by history.",
 		assumptions: []string{"tags are distinct per in-flight instruction; equal tags resolve to the later arrival", "out-of-order tag arrival is excluded from the value claims while finding F14 is listed in known-findings.txt (the never-younger read claim is judged regardless)"},
 	},
 	"C01": {
@@ -97,7 +97,7 @@ var specs = map[string]spec{
 			{name: "pressure", test: "TestC04", rapid: true, checks: [2]int{300, 8000}, shards: [2]int{16, 16}, secs: [2]int{900, 7200}},
 			{name: "forward", test: "TestC04Forward", shards: [2]int{4, 4}, secs: [2]int{600, 600}},
 		},
-		rule:        "forward = one-instruction programs, enumerated: every mnemonic that reads a register x source operand x 14x14 lattice values x four register patterns x plain / rename-table context; the operand's true value is delivered through the forwarding channel while the register file holds another value, and the architectural effect (C02's two oracles) must be the one of the true value. pressure = PRESSURE (2-3 registers, ALU only) and PRESSURELOAD (2-4 registers, load producers, slow branches) programs of 3-24 instructions: chains, fans, WAW and WAR pairs, mixed-latency producers, chained forwards; each (case, configuration) is run three times in one process: all three must equal the reference and return the same cycle count. Non-trivial = the dynamic trace holds a RAW, WAW or WAR register dependence at distance <= 4 (classes dep:raw, dep:waw, dep:war, dep:raw-load-producer, dep:chained are counted); distinct by (text, registers, memory image).",
+		rule:        "forward = one-instruction programs, enumerated: every mnemonic that reads a register x source operand x 14x14 lattice values x four register patterns x plain / rename-table context; the operand's true value is delivered through the forwarding channel while the register file holds another value, and the architectural effect (C02's two oracles) must be the one of the true value. pressure = PRESSURE (2-3 registers, ALU only), PRESSURELOAD (2-4 registers, load producers, slow branches) and PRESSUREMEM (also stores, to the half of memory the loads do not read: a store miss keeps a write unit busy while register results queue up behind it) programs of 3-24 instructions: chains, fans, WAW and WAR pairs, mixed-latency producers, chained forwards; each (case, configuration) is run three times in one process: all three must equal the reference and return the same cycle count. Non-trivial = the dynamic trace holds a RAW, WAW or WAR register dependence at distance <= 4 (classes dep:raw, dep:waw, dep:war, dep:raw-load-producer, dep:chained are counted); distinct by (text, registers, memory image).",
 		assumptions: []string{"the reference interpreter harness/ref is the sequential semantics (cross-checked per instruction by C02)", "parallelism p means EU = WU = p on MVP-6.x and p cores on MVP-7.x/8", "a case matching the trigger of a finding listed in /verif/known-findings.txt is not judged on the configurations of that finding (counted under excluded_by_known_finding)", "budget of simulated loop iterations = 16 x (executed instructions + 64) x 309, never wall-clock"},
 	},
 	"C05": {
@@ -129,7 +129,7 @@ var specs = map[string]spec{
 			{name: "random", test: "TestC02Random", rapid: true, checks: [2]int{12000, 300000}, shards: [2]int{8, 16}, secs: [2]int{600, 3600}},
 			{name: "fuzz", test: "FuzzC02", fuzz: true, tier: "thorough", count: [2]int{0, 60}, secs: [2]int{0, 600}, cores: 8},
 		},
-		rule:        "One-instruction programs assembled by risc.Parse, run through ReadRegisters/WriteRegisters/MemoryRead/MemoryWrite/Run on a plain and on a rename-table context. lattice = 45 mnemonics x 40x40 boundary values x 11 register patterns (distinct, every rd/rs alias, zero in every position), exhaustive; random = rapid-drawn mnemonic, registers (any of 32), operands/immediates (lattice, small, uniformly spread int32), pc and branch target. Two oracles that must agree with each other and with the code: the reference step function and a table of closed-form 64-bit expressions. Non-trivial = operands on which two readings of the instruction differ (signed vs unsigned compare, shift amount > 31 or negative, logical vs arithmetic shift of a negative value, wrap-around of add/sub/mul, sign bit of the loaded sub-word set, negative div/rem operands, stores of values wider than a byte) — or, for the remaining mnemonics, a negative operand or a zero/aliased destination; distinct by (text, operands, pc, target, bytes, context kind).",
+		rule:        "One-instruction programs assembled by risc.Parse, run through ReadRegisters/WriteRegisters/MemoryRead/MemoryWrite/Run on a plain and on a rename-table context; the declared classification (InstructionType.IsMemoryRead/IsMemoryWrite/IsConditionalBranch/IsUnconditionalBranch/IsBranch, which the control units consult instead of the sets) must agree with what the instruction does. lattice = 45 mnemonics x 40x40 boundary values x 11 register patterns (distinct, every rd/rs alias, zero in every position), exhaustive; random = rapid-drawn mnemonic, registers (any of 32), operands/immediates (lattice, small, uniformly spread int32), pc and branch target. Two oracles that must agree with each other and with the code: the reference step function and a table of closed-form 64-bit expressions. Non-trivial = operands on which two readings of the instruction differ (signed vs unsigned compare, shift amount > 31 or negative, logical vs arithmetic shift of a negative value, wrap-around of add/sub/mul, sign bit of the loaded sub-word set, negative div/rem operands, stores of values wider than a byte) — or, for the remaining mnemonics, a negative operand or a zero/aliased destination; distinct by (text, operands, pc, target, bytes, context kind).",
 		assumptions: []string{"RV32IM semantics as transcribed in harness/ref (ALU/Cond/LoadValue/StoreBytes) and independently in c02Alt", "division by zero is outside C02's domain (it is C07's defined error)", "a write of 0 to the zero register is harmless"},
 	},
 	"C11": {
